@@ -84,7 +84,12 @@ Matches(d, f) ==
     ELSE IF d.k # f.k THEN FALSE
     ELSE IF d.k = "arr" THEN Len(d.v) = Len(f.v) /\ \A i \in 1..Len(d.v) : Matches(d.v[i], f.v[i])
     ELSE IF d.k = "dict" THEN DOMAIN d.v = DOMAIN f.v /\ \A key \in DOMAIN d.v : Matches(d.v[key], f.v[key])
-    ELSE IF d.k = "stream" THEN /\ DOMAIN d.v = DOMAIN f.v /\ \A key \in DOMAIN d.v : Matches(d.v[key], f.v[key])
+    \* stream dictionaries: Length describes the encoding of the body; a document may hold it as the
+    \* integer it resolves to where the file holds a reference to an integer object (and vice versa)
+    ELSE IF d.k = "stream" THEN /\ DOMAIN d.v = DOMAIN f.v
+                                /\ \A key \in DOMAIN d.v :
+                                      \/ Matches(d.v[key], f.v[key])
+                                      \/ (key = NameLength /\ d.v[key] = NatObj(Len(d.w)) /\ f.v[key].k \in {"ref", "int"})
                                 /\ d.w = f.w
     ELSE d = f
 
@@ -103,4 +108,32 @@ RefsOf(o) ==
 
 TypeNameOf(o) ==      \* Object::type_name: /Type of a dictionary or stream, <<>> if none
     IF o.k \in {"dict", "stream"} /\ Has(o.v, NameType) /\ o.v[NameType].k = "name" THEN o.v[NameType].v ELSE <<>>
+
+-----------------------------------------------------------------------------
+(* Classifier of differences (DESIGN 2.9): which *kinds* of difference separate a document-side  *)
+(* value from a file-side value.  Used only to give a narrow signature to a violation.           *)
+
+\* end-of-line markers normalised to LF (7.3.4.2: an unescaped EOL in a literal string reads as LF)
+EolNorm(bytes) ==
+    FoldLeft(LAMBDA acc, b :
+                IF b = 13 THEN [o |-> Append(acc.o, 10), cr |-> TRUE]
+                ELSE IF b = 10 /\ acc.cr THEN [o |-> acc.o, cr |-> FALSE]
+                ELSE [o |-> Append(acc.o, b), cr |-> FALSE],
+             [o |-> <<>>, cr |-> FALSE], bytes).o
+
+RECURSIVE DiffKinds(_, _)
+DiffKinds(d, f) ==
+    IF Matches(d, f) THEN {}
+    ELSE IF d.k = "str" /\ f.k = "str" THEN (IF EolNorm(d.v) = f.v THEN {"str-eol"} ELSE {"str"})
+    ELSE IF d.k = "arr" /\ f.k = "arr" /\ Len(d.v) = Len(f.v) THEN UNION {DiffKinds(d.v[i], f.v[i]) : i \in 1..Len(d.v)}
+    ELSE IF d.k = "dict" /\ f.k = "dict" /\ DOMAIN d.v = DOMAIN f.v THEN UNION {DiffKinds(d.v[key], f.v[key]) : key \in DOMAIN d.v}
+    ELSE IF d.k = "stream" /\ f.k = "stream" /\ DOMAIN d.v = DOMAIN f.v THEN
+         UNION {DiffKinds(d.v[key], f.v[key]) : key \in DOMAIN d.v \ {NameLength}}
+         \cup (IF d.w = f.w THEN {} ELSE {"stream-body"})
+         \cup (IF ~Has(d.v, NameLength) \/ Matches(d.v[NameLength], f.v[NameLength])
+                  \/ (d.v[NameLength] = NatObj(Len(d.w)) /\ f.v[NameLength].k \in {"ref", "int"})
+               THEN {} ELSE {"stream-length"})
+    ELSE IF d.k = "name" /\ f.k = "name" THEN {"name"}
+    ELSE IF d.k \in {"int", "real"} /\ f.k \in {"int", "real"} THEN {"number"}
+    ELSE {"kind-or-structure"}
 =============================================================================
